@@ -216,12 +216,22 @@ def gen_cases(rng, n):
             add("%s(%s)" % (name, q(d)), ("text", str(exp)), f)
         elif f == "compose":
             c = rng.choice(["upper_substr", "len_trim", "hex_len", "lower_concat", "b64_upper", "len_replace", "substr_lower",
-                            "abs_least", "upper_upper", "len_b64", "initcap_lower", "concat_len"])
+                            "abs_least", "upper_upper", "len_b64", "initcap_lower", "concat_len", "neg_fn_twice", "neg_fn_twice", "same_call_twice"])
             if c == "upper_substr":
                 if "ß" in t:
                     continue
                 s = substr(t, 2, 3)
                 add("upper(substr(%s, 2, 3))" % q(t), ("text", s.upper()), "compose")
+            elif c == "neg_fn_twice":
+                # -F(x) evaluated twice in the same row must give the same (negated) value both times
+                k = rng.choice(["ab", "abc", "x"])
+                if len(t) < len(k):
+                    continue
+                add("concat(substr(%s, -length(%s)), '|', substr(%s, -length(%s)))" % (q(t), q(k), q(t), q(k)),
+                    ("text", t[-len(k):] + "|" + t[-len(k):]), "compose")
+                add("concat(least(-length(%s), 0), ':', greatest(-length(%s), -100))" % (q(t), q(t)), ("text", "%d:%d" % (-len(t), max(-len(t), -100))), "compose")
+            elif c == "same_call_twice":
+                add("concat(upper(%s), lower(%s), upper(%s))" % (q(t), q(t), q(t)), ("text", t.upper() + t.lower() + t.upper()) if "ß" not in t else ("any",), "compose")
             elif c == "len_trim":
                 if not t.strip(" \t"):
                     continue
